@@ -95,6 +95,18 @@ def set (new : List (String × JVal)) : NE → NE
   | .leaf t => .leaf t
   | .nest c msg vals => .nest c msg (merge vals new)
 
+/-- `Set` on the layer `d` levels below the outermost one -/
+def setAt : Nat → List (String × JVal) → NE → NE
+  | 0, new, e => set new e
+  | d + 1, new, .nest c msg vals => .nest (setAt d new c) msg vals
+  | _ + 1, _, .leaf t => .leaf t
+
+/-- `Error()` on the layer `d` levels below the outermost one (it leaves `err` / `msg` behind in that layer's values) -/
+def errorAt : Nat → NE → String × NE
+  | 0, e => error e
+  | d + 1, .nest c msg vals => let (t, c') := errorAt d c; (t, .nest c' msg vals)
+  | _ + 1, .leaf t => (t, .leaf t)
+
 end NE
 
 /-! ### driver commands -/
@@ -135,6 +147,11 @@ def run (e : Option NE) : List String → List String
     | ["LEAF", h] => run (some (.leaf (unhexStr h))) rest
     | ["WRAP", h] => run (e.map (fun c => .nest c (unhexStr h) [])) rest
     | "SET" :: kvs => run (e.map (NE.set (parsePairs kvs))) rest
+    | "SETAT" :: d :: kvs => run (e.map (NE.setAt d.toNat! (parsePairs kvs))) rest
+    | ["ERRORAT", d] =>
+      match e with
+      | none => "none" :: run e rest
+      | some x => let (t, x') := NE.errorAt d.toNat! x; hexStr t :: run (some x') rest
     | ["ERROR"] =>
       match e with
       | none => "none" :: run e rest
